@@ -41,7 +41,8 @@ type shape struct {
 	canceller bool // a task cancels ctx
 	preCancel bool // ctx cancelled before Shutdown is called
 	syncToo   bool // an extra synchronous handler on a
-	pubCancel int  // publishes use a context: 1 = cancelled before the publish, 2 = cancelled by a task at an explored point
+	pubCancel int  // publishes use a context: 1 = cancelled before the publish, 2 = cancelled by a task at an explored point, 3 = like 2 but only the first publish uses it, the later ones a live context
+	seq       bool // the async handlers are Sequential too
 	shards    int  // 0: outer and nested event types share a routing shard; 1: nested type in another shard; 2: the same with the roles of the two types swapped
 	twice     bool // after the first Shutdown returned (whatever it returned) and the bus went idle, publish again and call Shutdown with a live context
 }
@@ -88,14 +89,14 @@ func (in *inst) Body() {
 			in.rec.Add("exit", hid, id, "")
 		}
 	}
-	A.SubCustom(bus, mk(hA0, s.nested), nil, evt.SubOpts{Async: true})
+	A.SubCustom(bus, mk(hA0, s.nested), nil, evt.SubOpts{Async: true, Sequential: s.seq})
 	if s.twoH {
-		A.SubCustom(bus, mk(hA1, false), nil, evt.SubOpts{Async: true})
+		A.SubCustom(bus, mk(hA1, false), nil, evt.SubOpts{Async: true, Sequential: s.seq})
 	}
 	if s.syncToo {
 		A.SubCustom(bus, mk(hAs, false), nil, evt.SubOpts{})
 	}
-	B.SubCustom(bus, mk(hB0, false), nil, evt.SubOpts{Async: true})
+	B.SubCustom(bus, mk(hB0, false), nil, evt.SubOpts{Async: true, Sequential: s.seq})
 	ctx, cancel := context.WithCancel(context.Background())
 	defer cancel()
 	if s.preCancel {
@@ -106,7 +107,7 @@ func (in *inst) Body() {
 	if s.pubCancel == 1 {
 		pcancel()
 	}
-	if s.pubCancel == 2 {
+	if s.pubCancel >= 2 {
 		vrt.Go(func() {
 			vrt.Point()
 			in.rec.Add("pcancel", 0, 0, "")
@@ -117,7 +118,7 @@ func (in *inst) Body() {
 		for i := 0; i < s.pubs && w == 0; i++ {
 			id := 10 + i
 			in.rec.Add("call", id, 0, "")
-			if s.pubCancel != 0 {
+			if s.pubCancel != 0 && (s.pubCancel != 3 || i == 0) {
 				A.PubCtx(bus, pctx, id)
 			} else {
 				A.Pub(bus, id)
@@ -176,6 +177,7 @@ func (in *inst) Body() {
 		})
 	}
 	vrt.Join()
+	bus.Wait() // whatever is still in flight must be able to finish
 	in.rec.Add("end", 0, 0, "")
 }
 
@@ -228,6 +230,20 @@ func (in *inst) Check(res *vrt.Result) []vrt.Violation {
 	if in.s.syncToo {
 		aHandlers = append(aHandlers, hAs)
 	}
+	// cancellable: was the event (or, for a nested one, its parent) published with the
+	// context that a task cancels? Only those may legitimately be skipped.
+	cancellable := func(id int) bool {
+		if id >= 1000 {
+			id -= 1000
+		}
+		switch in.s.pubCancel {
+		case 0:
+			return false
+		case 3:
+			return id == 10
+		}
+		return id < 50
+	}
 	// every delivery exactly once (contexts stay live for publishes)
 	var pubs []int
 	for _, e := range evs {
@@ -247,10 +263,10 @@ func (in *inst) Check(res *vrt.Result) []vrt.Violation {
 					n++
 				}
 			}
-			if in.s.pubCancel != 0 && id < 1000 && n <= 1 {
+			if cancellable(id) && id < 1000 && n <= 1 {
 				continue
 			}
-			if in.s.pubCancel != 0 && id >= 1000 {
+			if cancellable(id) && id >= 1000 {
 				// nested publish happens only if the parent ran
 				if h.Count(evs, "enter", hA0, id-1000) == 0 && n == 0 {
 					continue
@@ -327,7 +343,7 @@ func (in *inst) Check(res *vrt.Result) []vrt.Violation {
 		}
 		for k := range acc {
 			x := pos("exit", k[0], k[1])
-			if in.s.pubCancel != 0 && pos("enter", k[0], k[1]) < 0 {
+			if cancellable(k[1]) && pos("enter", k[0], k[1]) < 0 {
 				continue // skipped because its publish context was cancelled
 			}
 			if x < 0 || x > wr {
@@ -412,6 +428,11 @@ func shapes(thorough bool) []shape {
 		{name: "wait/publish-ctx-precancelled", pubs: 2, twoH: true, pubCancel: 1},
 		{name: "wait/publish-ctx-cancel-race", pubs: 2, nested: true, pubCancel: 2},
 		{name: "shutdown/publish-ctx-cancel-race", pubs: 1, shutdown: true, pubCancel: 2},
+		{name: "wait/sequential-first-publish-ctx-cancelled-later-live", pubs: 2, seq: true, pubCancel: 3},
+		{name: "wait/sequential-3pub-first-ctx-cancelled", pubs: 3, seq: true, pubCancel: 3},
+		{name: "wait/first-publish-ctx-cancelled-later-live", pubs: 2, twoH: true, pubCancel: 3},
+		{name: "shutdown/sequential-first-publish-ctx-cancelled-later-live", pubs: 2, seq: true, shutdown: true, pubCancel: 3},
+		{name: "wait/sequential-nested", pubs: 2, seq: true, nested: true},
 		{name: "shutdown/twice-first-succeeds", pubs: 1, shutdown: true, twice: true},
 		{name: "shutdown/twice-first-times-out", pubs: 1, shutdown: true, preCancel: true, twice: true},
 		{name: "shutdown/twice-cancel-race", pubs: 1, shutdown: true, canceller: true, twice: true},
